@@ -365,6 +365,9 @@ class CSSStyleSheet(cssutils.stylesheets.StyleSheet):
                 self._variables = oldVariables
 
         if wellformed:
+            # the replaced rules are not part of this sheet anymore
+            for r in oldCssRules:
+                r._parentStyleSheet = None
             # use proper namespace object
             self._namespaces = _Namespaces(parentStyleSheet=self, log=self._log)
             self._cleanNamespaces()
